@@ -159,6 +159,13 @@ func (e *Env) evalLazy(x Expr) EVal {
 	case EIdent:
 		return e.ident(x.Name)
 	case EUnary:
+		if x.Op == "&" {
+			if id, ok := x.X.(EIdent); ok {
+				if v := e.ident(id.Name); v.Addr != nil {
+					return EVal{T: *v.Addr, Ty: types.NewPointer(v.Ty)}
+				}
+			}
+		}
 		switch x.Op {
 		case "!":
 			v := e.eval(x.X)
@@ -187,7 +194,7 @@ func (e *Env) evalLazy(x Expr) EVal {
 	case ESel:
 		// qualified identifier?
 		if id, ok := x.X.(EIdent); ok {
-			if _, isVar := e.lookupVar(id.Name); !isVar {
+			if _, isVar := e.lookupVar(id.Name); !isVar && !e.isLocalName(id.Name) {
 				if v, ok := e.qualified(id.Name, x.Name); ok {
 					return v
 				}
@@ -346,6 +353,22 @@ func (e *Env) binary(x EBinary) EVal {
 	return EVal{}
 }
 
+// isLocalName: name is a local variable or captured variable of the current frame.
+func (e *Env) isLocalName(name string) bool {
+	if e.fr == nil {
+		return false
+	}
+	if localAlloc(e.fr.Fn, name) != nil {
+		return true
+	}
+	for _, fv := range e.fr.Fn.FreeVars {
+		if fv.Name() == name {
+			return true
+		}
+	}
+	return false
+}
+
 func (e *Env) lookupVar(name string) (EVal, bool) {
 	if v, ok := e.vars[name]; ok {
 		return v, true
@@ -390,6 +413,10 @@ func (e *Env) ident(name string) EVal {
 				if av.Cell != nil {
 					t, _ := u.cellLoad(e.fr, av.Cell)
 					return EVal{T: t, Ty: el}
+				}
+				if _, isSt := isStruct(el); isSt {
+					addr := av.T
+					return EVal{Ty: el, Addr: &addr} // loaded lazily, field by field
 				}
 				return EVal{T: u.load(e.st, av.T, el), Ty: el}
 			}
@@ -765,6 +792,36 @@ func (e *Env) call(x ECall) EVal {
 			}
 		}
 		efail("lastresult: no call to %q on this path", name)
+	case "lastarg":
+		// lastarg("designator", i): i-th argument (receiver first) of the most recent call
+		name := ""
+		if sv, ok := x.Args[0].(EStr); ok {
+			name = sv.V
+		} else {
+			name = exprName(x.Args[0])
+		}
+		idx := 0
+		if len(x.Args) > 1 {
+			if iv, ok := x.Args[1].(EInt); ok {
+				fmt.Sscanf(iv.V, "%d", &idx)
+			}
+		}
+		for i := len(e.st.Calls) - 1; i >= 0; i-- {
+			ev := e.st.Calls[i]
+			for _, d := range ev.Desigs {
+				if d == name {
+					if idx < len(ev.Args) {
+						var ty types.Type
+						if idx < len(ev.ArgTys) {
+							ty = ev.ArgTys[idx]
+						}
+						return EVal{T: ev.Args[idx], Ty: ty}
+					}
+					efail("lastarg: call to %s has no argument %d", name, idx)
+				}
+			}
+		}
+		efail("lastarg: no call to %q on this path", name)
 	case "called":
 		// called("designator"): at least one call on this path (syntactic, per path)
 		name := ""
